@@ -22,4 +22,14 @@ var Props = []*h.Prop{
 		Real:        realCap,
 		Stub:        stubCap,
 		Assumptions: []string{"only the production call pattern of the buffer is explored; arbitrary API sequences on a bare buffer are input-space testing and not claimed", "insertion order is observable only through flow orientation (first packet of a conversation decides)"}},
+	{ID: "C22", Run: c22, Bubble: true,
+		Rule:        "one evaluation = one conversation (TCP handshake incl. ECN flag variants, ICMP echo / timestamp, ICMPv6 echo, TCP or UDP without handshake flags and ports drawn from the class boundaries 1, 22, 53, 80, 123, 443, 445, 500, 1023/1024, 2049, 8080, 32767/32768/32769, 40000, 50000, 60999, 65535; both IP versions; random in/out packet types) delivered to two interfaces of one real capture manager, request first on one, response first on the other, followed by 0-3 further packets; non-trivial = the documented heuristics are decisive for both first packets; distinct = distinct event-log hash",
+		Real:        realCap,
+		Stub:        stubCap,
+		Assumptions: []string{"decisive = TCP SYN vs SYN/ACK, ICMP echo/timestamp request vs reply, or exactly the client port ephemeral (>= 32768); ports are sampled at class boundaries, not the exhaustive 2^32 pairs the property mentions", "non-decisive pairs are only required to end up in a single record"}},
+	{ID: "C27", Run: c27, Bubble: true, RuntimeRandom: true,
+		Rule:        "one evaluation = a history of 2-6 configuration updates over the interface universe {eth0, eth1, wlan0, tun5} (explicit names, explicit disables, overlapping regular expressions with different settings, auto-detection with excludes, changes of every CaptureConfig field) with 0-5 packets per running interface and a clock step of 0 s / 0.4 s / 2 s / 299 s / 301 s before each update, ending with a shutdown; after every update the running captures (sources open, Status) and their settings (guarded accessor) are compared with the selection model, ambiguous selections are re-applied 16 times, and at the end everything read from any interface must be in the database; non-trivial = every run; distinct = distinct event-log hash including scheduling decisions",
+		Real:        realCap,
+		Stub:        stubCap,
+		Assumptions: []string{"which of two overlapping patterns wins is not demanded, only that it is always the same one; that clause depends on Go's map iteration order and is evaluated by 16 repetitions inside one run (replay retries it three times)", "interfaces are taken from the simulated host link list"}},
 }
